@@ -149,11 +149,11 @@ fn main() {
                 };
                 scen::graph_scenario(i, &mut srng, &o, family)
             }
-            "doc" | "doctext" | "docinv" | "histdoc" | "reload" | "rollback" | "iso" | "diff" | "patch" | "ids" | "idshi" | "migrate" | "badargs" | "isorich" | "serde" | "bulk" | "spans" | "anon" | "reloadlong" | "histlong" | "difflong" | "autofront" | "patchtext" => {
+            "doc" | "doctext" | "docinv" | "histdoc" | "reload" | "rollback" | "iso" | "diff" | "patch" | "ids" | "idshi" | "migrate" | "badargs" | "isorich" | "serde" | "bulk" | "spans" | "anon" | "reloadlong" | "histlong" | "difflong" | "autofront" | "patchtext" | "difftext" => {
                 if family == "isorich" {
                     amverif::proj::set_rich(true);
                 }
-                let text = family == "doctext" || family == "patchtext" || (family == "autofront" && i % 2 == 1);
+                let text = family == "doctext" || family == "patchtext" || family == "difftext" || (family == "autofront" && i % 2 == 1);
                 let mut prof = Profile::all();
                 if family == "docinv" || family == "autofront" {
                     prof.invalid_pct = 30;
@@ -220,7 +220,7 @@ fn main() {
                     readat: if family == "histlong" { 30 } else if family == "histdoc" { 10 } else if family == "reload" { 6 } else { 0 },
                     reload_before_readat: family == "reload",
                     rollback_pct: if family == "rollback" { 45 } else { 0 },
-                    diffs: if family == "diff" { 6 } else if family == "difflong" { 10 } else { 0 },
+                    diffs: if family == "diff" || family == "difftext" { 6 } else if family == "difflong" { 10 } else { 0 },
                     log_patches: family == "patch" || family == "patchtext",
                     steps: if family == "reloadlong" || family == "histlong" || family == "difflong" { 45 + srng.below(25) } else { 8 + srng.below(10) },
                     max_reps: 3,
